@@ -82,6 +82,31 @@ def run(res, tier, build_ok):
     no_oracle = 0
     before = snapshot()
     check_tables("")
+    # ---- names looked up on a set that does not list them: whatever a set *exposes* under a standard command name — by
+    #      attribute access too, not only in its listing — must be T10's value for that name; and looking names up must not
+    #      change the tables
+    allnames = sorted({k for e in sets.values() for k in e.keys})
+    t10all = dict(zip(allnames, drv.batch(["t10op %s" % n for n in allnames])))
+    for sn, e in sets.items():
+        for nm in allnames:
+            try:
+                oc = getattr(e, nm)
+            except AttributeError:
+                res.count("names a set does not offer (AttributeError)")
+                continue
+            except Exception as ex:
+                res.violation("lookup set=%s name=%s raises" % (sn, nm), "%s.%s raises %s" % (sn, nm, type(ex).__name__), {"set": sn, "name": nm})
+                continue
+            res.count("names resolved by attribute access")
+            r = t10all[nm]
+            val = getattr(oc, "value", None)
+            if r != "none" and val != int(r[3:]):
+                res.violation("lookup set=%s name=%s value=%s" % (sn, nm, hex(val) if isinstance(val, int) else val),
+                              "%s.%s resolves to operation code %s; T10 assigns %s to that name" % (sn, nm, hex(val) if isinstance(val, int) else val, hex(int(r[3:]))),
+                              {"set": sn, "name": nm, "value": val, "t10": int(r[3:]), "listed": nm in e.keys})
+    if snapshot() != before:
+        res.violation("tables changed by lookups", "looking names up by attribute access changed the opcode tables", {})
+        check_tables("after lookups: ")
     # ---- the tables are constants: attaching to devices of every type (any INQUIRY contents) and using the
     #      facade must not change them
     from pyscsi.pyscsi.scsi import SCSI
